@@ -34,6 +34,7 @@ class ProbeRec:
         self.got_op = []  # op index of each
         self.overrides = []
         self.stages = []
+        self.changes = []  # trace lengths at which this probe was (de)activated
         self.expect_exit_error = False
         self.enter_error = None
         self.exp_all = []  # expected events (model) since creation: (opi, ev)
@@ -118,6 +119,9 @@ class Engine:
         self.quarantined = 0
         self._latest = {}
         self._recv_cache = {}
+        self._enter_cache = {}
+        self._gen_created = {}
+        self._created_at = {}
 
     # -- reporting --------------------------------------------------------------
     def violate(self, inv, detail):
@@ -246,6 +250,7 @@ class Engine:
             return ["enter-error", canon(e)]
         rec.active = True
         rec.entered = True
+        rec.changes.append(self.opi)
         self.order.append(rec.id)
         return "ok"
 
@@ -266,6 +271,7 @@ class Engine:
         except BaseException as e:
             res = ["exit-error", canon(e)]
         rec.active = False
+        rec.changes.append(self.opi)
         self.order.remove(rec.id)
         self.on_deactivated(rec, res)
         if isinstance(res, list) and rec.expect_exit_error:
@@ -352,6 +358,56 @@ class Engine:
         exp.sort(key=lambda t: t[0])
         return exp
 
+    def inflight_unspecified(self, rec, lo, hi):
+        """(indexes, focus values) of trace events in [lo, hi) that belong to the
+        subtree of an activation (a generator) that was already in flight when
+        this probe's activation state last changed: which handlers such an
+        activation carries is fixed when it starts, the statements do not say
+        what a probe entered or left meanwhile receives from it."""
+        tr = self.sim.tr
+        idx, vals = set(), []
+        if not rec.changes:
+            return idx, vals
+        focus = {}
+        for sel in rec.spec["sels"]:
+            if sel.get("focus"):
+                focus[(sel["levels"][-1]["fn"], sel["focus"]["var"])] = True
+        for ev in tr.events[lo:hi]:
+            a = tr.acts[ev["act"]]
+            root = a
+            while root.parent is not None:
+                root = root.parent
+            t0 = self._enter_index(root.id)  # operation index
+            if any(t0 < c <= self.opi for c in rec.changes):
+                for var, val in msel.event_vars(ev):
+                    if (ev["fn"], var) in focus:
+                        idx.add(ev["i"])
+                        vals.append(val)
+        return idx, vals
+
+    def _enter_index(self, act_id):
+        """Index of the operation during which this activation started (for a
+        top-level generator: the operation that created the generator object --
+        it runs the code its function had at that moment)."""
+        return min(self._enter_cache.get(act_id, self.opi), self._created_at.get(act_id, 1 << 60))
+
+    def note_generator(self, op, n_acts_before):
+        """Remember when a top-level generator object was created, and which
+        activation it became at its first resumption."""
+        tr = self.sim.tr
+        for aid in range(n_acts_before + 1, tr.n + 1):
+            self._enter_cache[aid] = self.opi
+        if op["op"] == "gen_new":
+            self._gen_created[op["gen"]] = [self.opi, op["fn"]]
+        elif op["op"].startswith("gen_") and op.get("gen") in self._gen_created:
+            created, fn = self._gen_created[op["gen"]]
+            for aid in range(n_acts_before + 1, tr.n + 1):
+                a = tr.acts[aid]
+                if a.parent is None and a.fn == fn:
+                    self._created_at[aid] = created
+                    del self._gen_created[op["gen"]]
+                    break
+
     def _recv_ok(self, sel):
         """Receiver constraint of object-bound selector levels (C13): the
         activation's receiver must *be* the probed instance."""
@@ -435,6 +491,7 @@ class Engine:
         lo = len(sim.tr.events)
         res = {}
         order = [vn for vn in ("ref", "trc", "sys") if vn in sim.v]
+        n_acts_before = sim.tr.n
         sim.tr.hook = self.bind_hook if self.overriding_active() else None
         for k, vn in enumerate(order):
             # distinct value ranges are not needed: the twins never see each other
@@ -448,6 +505,7 @@ class Engine:
         for vn in order:
             sim.finish(vn, res[vn])
         hi = len(sim.tr.events)
+        self.note_generator(op, n_acts_before)
         ob = {
             "op": op,
             "lo": lo,
@@ -767,6 +825,14 @@ class Engine:
             for pid in list(self.probes):
                 rec = self.probes[pid]
                 got = ob["got"].get(pid, [])
+                if self.sc.get("relax_inflight") and got:
+                    uidx, uvals = self.inflight_unspecified(rec, ob["lo"], ob["hi"])
+                    if uvals:
+                        self.sim.reach("inflight_generator_events_unspecified", len(uvals))
+                        fas = [sl["focus"].get("as") or sl["focus"]["var"] for sl in rec.spec["sels"] if sl.get("focus")]
+                        got = [g for g in got if not any(g.get(k) in uvals for k in fas)]
+                else:
+                    uidx = set()
                 if rec.active and not rec.spec.get("nojudge"):
                     if raised_now:
                         # an injected subscriber failure aborted the probed call:
@@ -775,6 +841,10 @@ class Engine:
                         rec.exp_all.extend((self.opi, d) for d in got)
                         continue
                     exp = self.expected_for(rec, ob["lo"], ob["hi"])
+                    if self.sc.get("relax_inflight"):
+                        if not uidx:
+                            uidx, _ = self.inflight_unspecified(rec, ob["lo"], ob["hi"])
+                        exp = [(i, d) for i, d in exp if i not in uidx]
                     rec.exp_all.extend((self.opi, d) for _, d in exp)
                     self.compare_stream(self.stream_inv(rec), rec, exp, got)
                 elif got and not rec.active:
@@ -897,7 +967,7 @@ class Engine:
         got = self.handlers_ids()
         if sorted(exp) != sorted(got):
             self.violate(
-                "C05.no_handlers",
+                self.sc.get("handlers_inv", "C05.no_handlers"),
                 {"after": op.get("op"), "expected_handlers": len(exp), "installed": len(got),
                  "active": list(self.order)},
             )
